@@ -304,7 +304,9 @@ func runC16(w *World, r *Report) {
 			p := Path(alt.Val)
 			switch {
 			case strings.Contains(p, "ObfuscateJSON(") && strings.HasSuffix(p, "#0"):
-				op, _ := FindRel(relsOfConds(alt.Conds), func(v ssa.Value) bool { return strings.Contains(Path(v), "ObfuscateJSON(") && strings.HasSuffix(Path(v), "#1") }, isNilConst)
+				op, _ := FindRel(relsOfConds(alt.Conds), func(v ssa.Value) bool {
+					return strings.Contains(Path(v), "ObfuscateJSON(") && strings.HasSuffix(Path(v), "#1")
+				}, isNilConst)
 				r.Check(op == "==", "R4", key+"/obfuscated-result", posOf(alt.Ret), "the obfuscated JSON is returned when there was no error")
 			case strings.Contains(p, "ObfuscateString("):
 				r.Hold("R4", key+"/fallback-hashed", posOf(alt.Ret), 1, "on a JSON error the whole body is returned hashed")
